@@ -197,6 +197,12 @@ pub const VARIANTS: &[&str] = &[
     "reserved-sampler",
     "typedef-array",
     "typedef-array",
+    "reserved-main",
+    "reserved-device",
+    "reserved-cb-main",
+    "reserved-cb-double",
+    "entry-texture",
+    "entry-kernel",
 ];
 
 fn decls_of(p: &Program) -> Vec<DeclDesc> {
@@ -346,6 +352,9 @@ fn build_with(seed: u64, variant: &str, drops: &str) -> Option<Built> {
         // `reserved-<identifier>`: the first non-cbuffer resource gets that name; `reserved-cb`: a cbuffer named `matrix`
         let (name, want_cb) = match which {
             "cb" => ("matrix", true),
+            n if n.starts_with("cb-") && n.len() > 3 && n[3..].chars().all(|c| c.is_ascii_alphanumeric() || c == '_') => {
+                (&n[3..], true)
+            }
             n if !n.is_empty() && n.chars().all(|c| c.is_ascii_alphanumeric() || c == '_') => (n, false),
             _ => return None,
         };
@@ -364,6 +373,13 @@ fn build_with(seed: u64, variant: &str, drops: &str) -> Option<Built> {
                 });
             }
         }
+    }
+    // `entry-<identifier>`: the first entry point function gets that name (reserved in HLSL: the exporter renames it)
+    if let Some(name) = variant.strip_prefix("entry-") {
+        if name.is_empty() || !name.chars().all(|c| c.is_ascii_alphanumeric() || c == '_') || prog.entries.is_empty() {
+            return None;
+        }
+        prog.entries[0].func.name = name.to_string();
     }
     let mut decls = decls_of(&prog);
     let mut includes: Vec<(String, String)> = Vec::new();
@@ -384,7 +400,7 @@ fn build_with(seed: u64, variant: &str, drops: &str) -> Option<Built> {
     drop(lines);
     src = match variant {
         "plain" | "state" => src,
-        v if v.starts_with("reserved-") => src,
+        v if v.starts_with("reserved-") || v.starts_with("entry-") => src,
         "pp-guard" => format!("#ifndef MAIN_GUARD\n#define MAIN_GUARD\n{}#endif\n#ifndef MAIN_GUARD\nthis is never parsed @\n#endif\n", src),
         "pp-macros" => {
             // object-like macros used in types, sizes and names
@@ -499,6 +515,63 @@ fn build_with(seed: u64, variant: &str, drops: &str) -> Option<Built> {
 }
 
 // ------------------------------------------------------------------------------------------------ oracle helpers
+
+/// The RESERVED_NAMES table of a back end, re-read from the source tree the harness was built from
+/// (`VERIF_REPO` or /repo): string literals and `pub const X: &str = ".."` references.
+fn reserved_table(crate_dir: &str) -> Vec<String> {
+    let repo = std::env::var("VERIF_REPO").unwrap_or_else(|_| "/repo".to_string());
+    let text = std::fs::read_to_string(format!("{}/{}/src/names.rs", repo.trim_end_matches('/'), crate_dir)).unwrap_or_default();
+    let mut consts: Vec<(String, String)> = Vec::new();
+    for line in text.lines() {
+        let l = line.trim();
+        if let Some(rest) = l.strip_prefix("pub const ") {
+            if let Some((name, tail)) = rest.split_once(": &str = \"") {
+                if let Some(v) = tail.strip_suffix("\";") {
+                    consts.push((name.trim().to_string(), v.to_string()));
+                }
+            }
+        }
+    }
+    let mut out = Vec::new();
+    if let Some(start) = text.find("pub const RESERVED_NAMES") {
+        let body = &text[start..];
+        let body = &body[body.find("&[").map(|i| i + 2).unwrap_or(0)..];
+        let body = &body[body.find("&[").map(|i| i + 2).unwrap_or(0)..];
+        let end = body.find("];").unwrap_or(body.len());
+        for line in body[..end].lines() {
+            let l = line.split("//").next().unwrap_or("").trim();
+            for item in l.split(',') {
+                let item = item.trim();
+                if item.is_empty() {
+                    continue;
+                }
+                if let Some(v) = item.strip_prefix('"').and_then(|x| x.strip_suffix('"')) {
+                    out.push(v.to_string());
+                } else if let Some((_, v)) = consts.iter().find(|(n, _)| n == item) {
+                    out.push(v.clone());
+                }
+            }
+        }
+    }
+    out
+}
+
+thread_local! {
+    static RESERVED: (Vec<String>, Vec<String>) = (reserved_table("hlsl"), reserved_table("msl"));
+}
+
+/// declared name a reported binding name goes back to: itself, or `<declared>_<n>` with the counter stripped
+fn base_name(name: &str, declared: &[&str]) -> String {
+    if declared.contains(&name) {
+        return name.to_string();
+    }
+    if let Some((head, tail)) = name.rsplit_once('_') {
+        if !tail.is_empty() && tail.chars().all(|c| c.is_ascii_digit()) && declared.contains(&head) {
+            return head.to_string();
+        }
+    }
+    name.to_string()
+}
 
 /// crude lexer used to compare HLSL sources token for token
 fn tokens(s: &str) -> Vec<String> {
@@ -704,6 +777,8 @@ fn run_cross(seed: u64, variant: &str, out: &mut Out, hist: &mut Hist) {
     let has_address = b.decls.iter().any(|d| d.kind.contains("Address"));
     let aside: Vec<&str> =
         b.decls.iter().filter(|d| d.ss || d.kind.contains("Address")).map(|d| d.name.as_str()).collect();
+    let declared: Vec<&str> = b.decls.iter().map(|d| d.name.as_str()).collect();
+    let is_msl = |t: Tgt| t == Tgt::Msl;
     if let (Verdict::Ok(d), Verdict::Ok(v), Verdict::Ok(va)) = (dx, vk, vkba) {
         if d.len() != v.len() || d.len() != va.len() {
             fails.push(format!("pipeline counts differ: dx={} vk={} vkba={}", d.len(), v.len(), va.len()));
@@ -744,11 +819,13 @@ fn run_cross(seed: u64, variant: &str, out: &mut Out, hist: &mut Hist) {
                 if p[i].state != p0[i].state {
                     fails.push(format!("pipeline {}: pipeline state differs {} vs {}", i, t0.name(), t.name()));
                 }
+                // static samplers and buffer addresses are known from the declarations; a reported name goes back to
+                // its declaration even when an exporter appended a counter to it
                 let core = |x: &PipeInfo| {
                     let mut v: Vec<(String, String, Option<u32>)> = x
                         .bindings
                         .iter()
-                        .filter(|b| !aside.contains(&b.name.as_str()))
+                        .filter(|b| !aside.contains(&base_name(&b.name, &declared).as_str()))
                         .map(|b| (b.name.clone(), b.kind.clone(), b.count))
                         .collect();
                     v.sort();
@@ -758,7 +835,44 @@ fn run_cross(seed: u64, variant: &str, out: &mut Out, hist: &mut Hist) {
                 if c0 != c1 {
                     let only0: Vec<_> = c0.iter().filter(|x| !c1.contains(x)).collect();
                     let only1: Vec<_> = c1.iter().filter(|x| !c0.contains(x)).collect();
-                    fails.push(format!(
+                    // Is the whole difference the renaming of declared names that are reserved words of one of the two
+                    // target languages only (HLSL and Metal each rename what is reserved for them; an HLSL cbuffer block
+                    // keeps its name, the Metal global made from it does not)?  Decided from the two RESERVED_NAMES
+                    // tables of the source tree, not from a list of names.
+                    let mut class: Option<&'static str> = None;
+                    if is_msl(*t0) != is_msl(*t) {
+                        let rebase = |c: &Vec<(String, String, Option<u32>)>| {
+                            let mut v: Vec<(String, String, Option<u32>)> =
+                                c.iter().map(|(n, k, cnt)| (base_name(n, &declared), k.clone(), *cnt)).collect();
+                            v.sort();
+                            v
+                        };
+                        if rebase(&c0) == rebase(&c1) {
+                            let explained = RESERVED.with(|(hl, ms)| {
+                                let mut tags: Vec<&'static str> = Vec::new();
+                                for (n, _, _) in only0.iter().chain(only1.iter()) {
+                                    let base = base_name(n, &declared);
+                                    let in_h = hl.contains(&base);
+                                    let in_m = ms.contains(&base);
+                                    let is_cb = b.decls.iter().any(|d| d.name == base && d.kind == "cbuffer");
+                                    if is_cb && in_m {
+                                        tags.push("msl");
+                                    } else if !is_cb && in_h && !in_m {
+                                        tags.push("hlsl");
+                                    } else if !is_cb && in_m && !in_h {
+                                        tags.push("msl");
+                                    } else {
+                                        return None;
+                                    }
+                                }
+                                tags.sort();
+                                tags.dedup();
+                                Some(if tags.len() == 1 { tags[0] } else { "both" })
+                            });
+                            class = explained;
+                        }
+                    }
+                    let what = format!(
                         "pipeline {}: bindings differ {} vs {}: only {}: {:?}; only {}: {:?}",
                         i,
                         t0.name(),
@@ -767,11 +881,17 @@ fn run_cross(seed: u64, variant: &str, out: &mut Out, hist: &mut Hist) {
                         only0,
                         t.name(),
                         only1
-                    ));
+                    );
+                    match class {
+                        Some(c) => fails.push(format!("binding-name-reserved-in-one-target:{}: {}", c, what)),
+                        None => fails.push(what),
+                    }
                 }
             }
         }
     }
+    // an unexplained difference is reported before an explained one
+    fails.sort_by_key(|f| f.starts_with("binding-name-reserved-in-one-target:"));
     let _ = msl;
     hist.add(&format!("variant={}", variant));
     hist.add(&format!("verdicts={}", verdicts.join(",")));
